@@ -234,7 +234,15 @@ def for_property(prop: str) -> list[Variant]:
             for sid in sorted(os.listdir(sroot)):
                 pd = os.path.join(sroot, sid, "patch.diff")
                 if sid.startswith(prop) and os.path.isfile(pd) and _applies(pd):
-                    vs.append(Variant(f"{prop}-s-{sid}", "R", "mutant", [], diff=pd, note="seeded change (sub-agent)"))
+                    kind = "mutant"
+                    try:
+                        import json as _json
+
+                        if _json.load(open(os.path.join(sroot, sid, "meta.json"))).get("limit"):
+                            kind = "mutant-undecided"  # a documented limit: the check must at least not pass silently
+                    except (OSError, ValueError):
+                        pass
+                    vs.append(Variant(f"{prop}-s-{sid}", "R", kind, [], diff=pd, note="seeded change (sub-agent)"))
         # breaking edits on top of a refactored tree (<PROP>__<rule>__<name>.diff): each must be reported
         mroot = os.path.join(os.path.dirname(TWINS), "mutants")
         if os.path.isdir(mroot):
